@@ -112,6 +112,8 @@ def run(prop, tier, seed, replay):
                 N = field["N"]
                 mode = ["centers", "name", "centers_missing", "num", "centers", "centers_and_name"][ci % 6]
                 n = rng.choice([N, N + 3, 30, 80])
+                if mode == "centers" and ci % 2 == 0:
+                    n = max(n, 30)          # several chunks of 7 (stratum below)
                 weights = rng.random() < 0.5
                 s = G.make_sample(rng, field, n=max(n, N), extent_mode=rng.choice(["compact", "wide", "mixed"]),
                                   zrange=(0.1, 1.0), weights=weights)
@@ -252,6 +254,38 @@ def run(prop, tier, seed, replay):
                 finally:
                     C.remove(root / f"c{ci}")
                     C.remove(root / f"o{ci}")
+        # ---- stratum: a reference patch of radius EXACTLY zero (single object, centre = the object) whose partner
+        #      patch lies elsewhere: the alignment guard must refuse it (theorem guard_rejects_zero_radius)
+        with C.Workers(1):
+            for gi, (ra0, dec0) in enumerate([(45.0, 0.0), (90.0, 0.0), (0.0, 0.0), (135.0, 45.0)]):
+                nprng = np.random.default_rng(seed * 100 + gi)
+                n1 = 40
+                ra_b = np.concatenate([[np.deg2rad(ra0)], np.deg2rad(200.0) + nprng.uniform(-0.02, 0.02, n1)])
+                dec_b = np.concatenate([[np.deg2rad(dec0)], np.deg2rad(-20.0) + nprng.uniform(-0.02, 0.02, n1)])
+                ids = np.concatenate([[0], np.ones(n1, dtype=int)])
+                big = C.make_catalog(root / f"g{gi}a", ra_b, dec_b, z=nprng.uniform(0.1, 1, n1 + 1), patch=ids)
+                # partner: patch 1 at the same place, patch 0 about 55 degrees away from the single object
+                # (the reference catalog is chosen by comparing the per-patch record counts as tuples, so the partner's
+                #  patch 0 holds a single object as well: then the larger patch 1 makes `big` the reference)
+                ra_s = np.concatenate([[np.deg2rad(ra0 + 55.0)], np.deg2rad(200.0) + nprng.uniform(-0.02, 0.02, 10)])
+                dec_s = np.concatenate([[np.deg2rad(dec0 * 0.5)], np.deg2rad(-20.0) + nprng.uniform(-0.02, 0.02, 10)])
+                small = C.make_catalog(root / f"g{gi}b", ra_s, dec_s, z=nprng.uniform(0.1, 1, 11),
+                                       patch=np.concatenate([np.zeros(1, dtype=int), np.ones(10, dtype=int)]))
+                r0 = float(big.get_radii().data[0])
+                ck.count(f"guard:zero-radius:{'exact' if r0 == 0.0 else 'tiny'}")
+                for order in ("ref-first", "other-first"):
+                    try:
+                        PatchLinkage.from_catalogs(conf, *((big, small) if order == "ref-first" else (small, big)))
+                        raised = False
+                    except InconsistentPatchesError:
+                        raised = True
+                    ck.case(None, ("guard-zero", gi, order))
+                    if not raised:
+                        ck.add_violation(f"measurement accepted two catalogs whose patch 0 lies 55 degrees apart (the larger "
+                                         f"catalog's patch 0 is a single object at ({ra0}, {dec0}) deg with stored radius {r0!r})",
+                                         {"variant": "zero-radius", "position_deg": [ra0, dec0], "order": order, "radius": r0})
+                C.remove(root / f"g{gi}a")
+                C.remove(root / f"g{gi}b")
     finally:
         C.remove(root)
     # ---- (a) implementation vs Lean model ------------------------------------------------------
